@@ -19,19 +19,19 @@ SPEC_DIRS = {"C01": "RaceDriver", "C07": "RaceDriver", "C09": "RaceDriver", "C06
 ADDED = {
     "C01": "real-race leg (real `esrally race` under real Thespian recorded through the ESRALLY_VERIF_TRACE hooks, per-process logs merged by causality and validated by TLC against specs/RealRace; informational: recorded in the evidence, rejections are reported as drift); clauses CompletedByEnds, CompletedByCuts, NoSpuriousFailure; scenarios W3Split/W3Early/TwoCB/TwoAny/Ragged and a generated family; blocking waits and unprojectable states handled; progress reporting on in half of the races.",
     "C02": "a leg on the real Driver.start_benchmark (rows sent to workers partition the clients).",
-    "C03": "exact ceil table for ingest-percentage; corpora loaded by the real loader; stale offset-table histories; adapter leg through the real AsyncIoAdapter (tasks sharing an operation); explicit corpora lists.",
-    "C04": "sub-millisecond schedule offsets; element leg (real Allocator/AsyncIoAdapter); completion event inside a throttle wait; wire leg incl. responses cut after the headers and two target hosts; TLS errors among the error outcomes.",
-    "C05": "element leg with ramp-up; completion-exposing runners; driver progress leg (clients in lockstep and of any speed).",
+    "C03": "exact ceil table for ingest-percentage; corpora loaded by the real loader; stale offset-table histories; adapter leg through the real AsyncIoAdapter (tasks sharing an operation); explicit corpora lists. Registration order of the co-located clients of a worker varies (listed, reversed, rotated, shuffled).",
+    "C04": "sub-millisecond schedule offsets; element leg (real Allocator/AsyncIoAdapter); completion event inside a throttle wait; wire leg incl. responses cut after the headers and two target hosts; TLS errors among the error outcomes. Clause C04_ProcessingWithinRequest.",
+    "C05": "element leg with ramp-up; completion-exposing runners; driver progress leg (clients in lockstep and of any speed). Failing requests that still report a weight (success: false with weight > 0) in the model's outcome alphabet and in every generator.",
     "C06": "driver leg (calculate() calls of the real Driver in simulated races); mixed units within a task.",
-    "C07": "generated scenarios; preemption at unlocked accesses to the sampler's deque; high-volume leg; client id observed at the wire.",
+    "C07": "generated scenarios; preemption at unlocked accesses to the sampler's deque; high-volume leg; client id observed at the wire. Composite leg: the dependent timings the real runner.Composite returns (one per executed sub-request) on seeded random request trees, clause TimingsOwn of specs/Composite as DependentTimingPerSubRequest.",
     "C08": "hand-overs through bulk_add as race control does; dependent timings; stored percentile key set; non-ASCII races read back under LC_ALL=C; query leg on two real EsMetricsStores (writer without refresh, reader) over a fake Elasticsearch that evaluates the searches and makes documents searchable on refresh only.",
-    "C09": "prep leg (TrackPrep.tla); unsuccessful results and retried connection errors as request faults; lenient tasks next to strict ones; siblings that go on after a failure.",
-    "C10": "target-index rules; exists_set_param macro; special characters; parameters used only in index bodies/templates; imported macros and single-quoted collect; base-url per document set; verbatim text of operation parameters inside included parts (IncludedTextVerbatim).",
+    "C09": "prep leg (TrackPrep.tla); unsuccessful results and retried connection errors as request faults; lenient tasks next to strict ones; siblings that go on after a failure. The class of the injected parameter-source failure varies (RuntimeError family included); every 4th store failure is a SystemExit (not an Exception: ends the actor in the simulated system).",
+    "C10": "target-index rules; exists_set_param macro; special characters; parameters used only in index bodies/templates; imported macros and single-quoted collect; base-url per document set; verbatim text of operation parameters inside included parts (IncludedTextVerbatim). Directed timing family: every non-empty subset of warmup-iterations / iterations / warmup-time-period / time-period / ramp-up on a task, inherited from a parallel element, or split.",
     "C11": "multi-challenge tracks; emptied parallels; case-sensitive and custom operation-type filters; a RACE leg: complete simulated races (real BenchmarkActor/DriverActor/Workers, TLC-simulated behaviours of RaceDriver.tla, TLC trace validation) on tracks that are what the real filter leaves of a larger track.",
     "C12": "multi-lifecycle histories incl. restart after a failed start; buffering metrics store (ShutdownMetricsStored); race unknown to the host's race store; exhaustive stop-outcome family under the real ProcessLauncher.stop (incl. gone at SIGKILL).",
-    "C13": "several nodes from one Car object; docker provisioning path; locale leg (child interpreter under LC_ALL=C); a data path that cannot be deleted at clean-up.",
-    "C14": "CRLF corpora; corrupt-payload and over-expanding archives; short bodies; stalled connections; sub-second table age; final 3xx answers; signatures that tell who left a trusted file.",
-    "C15": "dirty working copy; branches deleted upstream; recorded revision.",
+    "C13": "several nodes from one Car object; docker provisioning path; locale leg (child interpreter under LC_ALL=C); a data path that cannot be deleted at clean-up. Templates that render to nothing (E1-E3) in the model universe and the generated team directories.",
+    "C14": "CRLF corpora; corrupt-payload and over-expanding archives; short bodies; stalled connections; sub-second table age; final 3xx answers; signatures that tell who left a trusted file. Needs leg: WHICH document files preparation is asked for (specs/CorpusPrep/Needed.tla vs the real used_corpora / DefaultTrackPreparator over tracks with several schedule items per corpus).",
+    "C15": "dirty working copy; branches deleted upstream; recorded revision. Tag-fallback repositories whose tags are string prefixes but not variants of the version.",
     "C16": "histories on one Retry instance and one shared params dict (ParamsUntouched).",
     "C17": "error body shapes; many-item bulk errors; concrete connection error classes; transport-layer leg through the real RallySyncElasticsearch; store leg (real EsMetricsStore put/flush/close histories over guarded calls with whole-call outcomes, validated against EsStore.tla: documents of a bulk_index call that returned are never handed over again).",
     "C18": "failing sub-requests and failed streams (judged after fix f822262); ClientIndependent (solo re-execution); DependentDated; wire leg incl. responses cut after the headers and two target hosts.",
@@ -39,7 +39,7 @@ ADDED = {
     "C20": "colliding task/operation names; locale leg (report file under LC_ALL=C).",
 }
 
-MORE_SPEC_DIRS = {"C09": ["TrackPrep"], "C01": ["ActorSem", "RealRace"], "C17": ["EsStore"], "C11": ["RaceDriver"], "C04": ["WireTiming"], "C18": ["WireTiming"]}
+MORE_SPEC_DIRS = {"C07": ["Composite"], "C09": ["TrackPrep"], "C01": ["ActorSem", "RealRace"], "C17": ["EsStore"], "C11": ["RaceDriver"], "C04": ["WireTiming"], "C18": ["WireTiming"]}
 
 
 def check(pid, text, note, technique, engine="tlc", design_ref=None, spec=None):
